@@ -205,7 +205,7 @@ func (ci *index) clashesMAC(c *Persistent) (p *Persistent, mac net.HardwareAddr)
 }
 
 // find finds persistent client by string representation of the ClientID, IP
-// address, or MAC.
+// address, MAC, or subnet.
 func (ci *index) find(id string) (c *Persistent, ok bool) {
 	c, ok = ci.findByClientID(id)
 	if ok {
@@ -224,6 +224,11 @@ func (ci *index) find(id string) (c *Persistent, ok bool) {
 	mac, err := net.ParseMAC(id)
 	if err == nil {
 		return ci.findByMAC(mac)
+	}
+
+	subnet, err := netip.ParsePrefix(id)
+	if err == nil {
+		return ci.findBySubnet(subnet)
 	}
 
 	return nil, false
@@ -283,6 +288,18 @@ func (ci *index) findByIP(ip netip.Addr) (c *Persistent, found bool) {
 func (ci *index) findByMAC(mac net.HardwareAddr) (c *Persistent, found bool) {
 	k := macToKey(mac)
 	uid, found := ci.macToUID[k]
+	if found {
+		return ci.uidToClient[uid], true
+	}
+
+	return nil, false
+}
+
+// findBySubnet finds persistent client that has exactly this subnet as one of
+// its identifiers.
+func (ci *index) findBySubnet(subnet netip.Prefix) (c *Persistent, found bool) {
+	// Subnets are stored masked, see [Persistent.setID].
+	uid, found := ci.subnetToUID.Get(subnet.Masked())
 	if found {
 		return ci.uidToClient[uid], true
 	}
